@@ -231,7 +231,8 @@ def _parse_composition(
     default = schema.get("default", NotPassed())
     if isinstance(element, ObjectMeta):
         return AllOf(element, default=default)
-    element.default = default or element.default
+    if not isinstance(default, NotPassed):
+        element.default = default
     return element
 
 
